@@ -29,13 +29,23 @@ func RenameArgumentsAction(newNames []string) RewriteAction {
 			return []ast.Option{option}
 		}
 
+		// every name is resolved against the names the arguments had before the
+		// rename: a new name may be the previous name of another argument.
+		previousNames := make([]string, len(option.Args))
 		for i, arg := range option.Args {
-			previousName := arg.Name
+			previousNames[i] = arg.Name
 			option.Args[i].Name = newNames[i]
+		}
 
-			for j, assignment := range option.Assignments {
-				if assignment.Value.Argument != nil && assignment.Value.Argument.Name == previousName {
+		for j, assignment := range option.Assignments {
+			if assignment.Value.Argument == nil {
+				continue
+			}
+
+			for i, previousName := range previousNames {
+				if assignment.Value.Argument.Name == previousName {
 					option.Assignments[j].Value.Argument.Name = newNames[i]
+					break
 				}
 			}
 		}
